@@ -1139,3 +1139,216 @@ theorem sortByCreation_stable (k : Nat) : ∀ fs : List (List Message),
     simp only [List.filter_cons, sortByCreation_stable k fs]
 
 end Fit.Activity
+
+namespace Fit.Activity
+open Fit.Value Fit.Msg Fit.Gen Fit.Gen.Tool
+
+/-! ### laps and sessions: the two update walks -/
+
+/-- rewriting of the start position of the first lap/session that does not end before the record -/
+def rewriteStart (ph : PH) (r : RecInfo) (m : Message) : Message :=
+  setOrRemove ph.sLong r.long (setOrRemove ph.sLat r.lat m)
+
+/-- what `updateStartPosition` does to the message at a position, given whether every lap/session BEFORE it ends
+before the first revealed record (`pre`) -/
+def startFate (ph : PH) (r : RecInfo) (pre : Bool) (m : Message) : Message :=
+  if m.num == ph.mesgNum then
+    if pre then (if endsBefore ph r m then strip4 ph m else rewriteStart ph r m) else m
+  else m
+
+/-- the flag after the message -/
+def startPre (ph : PH) (r : RecInfo) (pre : Bool) (m : Message) : Bool :=
+  if m.num == ph.mesgNum then pre && endsBefore ph r m else pre
+
+/-- run the fates along the list -/
+def startWalk (ph : PH) (r : RecInfo) : Bool → List Message → List Message
+  | _, [] => []
+  | pre, m :: ms => startFate ph r pre m :: startWalk ph r (startPre ph r pre m) ms
+
+theorem startWalk_false (ph : PH) (r : RecInfo) : ∀ ms, startWalk ph r false ms = ms
+  | [] => rfl
+  | m :: ms => by
+    have h1 : startFate ph r false m = m := by simp [startFate]
+    have h2 : startPre ph r false m = false := by simp [startPre]
+    simp only [startWalk, h1, h2, startWalk_false ph r ms]
+
+/-- `updateStartPosition` = every lap/session before the first one that does not end before the record is stripped,
+that one gets the record's position as start position, all later ones are left alone -/
+theorem updStart_eq_walk (ph : PH) (r : RecInfo) : ∀ ms, updStart ph r ms = startWalk ph r true ms
+  | [] => rfl
+  | m :: ms => by
+    simp only [updStart, startWalk, startFate, startPre]
+    by_cases hn : (m.num == ph.mesgNum) = true
+    · by_cases he : endsBefore ph r m = true
+      · simp [hn, he, updStart_eq_walk ph r ms]
+      · simp [hn, he, rewriteStart, startWalk_false]
+    · simp [hn, updStart_eq_walk ph r ms]
+
+/-- laps/sessions follow each other in time: each starts no earlier than `lo`, the end of the one before
+(end = start_time + total_timer_time/1000, in seconds) -/
+def lapsSeqP (ph : PH) : Nat → List Message → Prop
+  | _, [] => True
+  | lo, m :: ms => if m.num == ph.mesgNum then lo ≤ lapStartTime ph m ∧ lapsSeqP ph (lapEndTime ph m) ms else lapsSeqP ph lo ms
+
+theorem lapStart_le_end (ph : PH) (m : Message) : lapStartTime ph m ≤ lapEndTime ph m := by
+  unfold lapEndTime; exact Nat.le_add_right _ _
+
+/-- what the start stage does to a lap/session `m` (result `m'`), in seconds: entirely before the first revealed record
+(timestamp `T`) → all four positions removed; otherwise either its start position is replaced by the record's, or it
+is left alone and starts at or after `T` -/
+def StartStageOK (ph : PH) (r : RecInfo) (m m' : Message) : Prop :=
+  (m.num == ph.mesgNum) = true →
+    (lapEndTime ph m < r.ts → m' = strip4 ph m) ∧
+    (r.ts ≤ lapEndTime ph m → m' = rewriteStart ph r m ∨ (m' = m ∧ r.ts ≤ lapStartTime ph m))
+
+theorem startWalk_ok (ph : PH) (r : RecInfo) : ∀ (ms : List Message) (pre : Bool) (lo : Nat),
+    lapsSeqP ph lo ms → (pre = false → r.ts ≤ lo) →
+    (∀ m ∈ ms, (m.num == ph.mesgNum) = true → endsBefore ph r m = decide (lapEndTime ph m < r.ts)) →
+    Rel2 (StartStageOK ph r) ms (startWalk ph r pre ms)
+  | [], _, _, _, _, _ => .nil
+  | m :: ms, pre, lo, hseq, hpre, hu => by
+    simp only [startWalk]
+    have hu' : ∀ x ∈ ms, (x.num == ph.mesgNum) = true → endsBefore ph r x = decide (lapEndTime ph x < r.ts) :=
+      fun x hx => hu x (List.mem_cons_of_mem _ hx)
+    by_cases hn : (m.num == ph.mesgNum) = true
+    · simp only [lapsSeqP, hn, ↓reduceIte] at hseq
+      obtain ⟨hlo, hrest⟩ := hseq
+      have hum := hu m (List.mem_cons_self ..) hn
+      cases pre with
+      | true =>
+        by_cases he : lapEndTime ph m < r.ts
+        · have heb : endsBefore ph r m = true := by rw [hum]; simpa using he
+          refine .cons ?_ (startWalk_ok ph r ms _ _ hrest ?_ hu')
+          · intro _
+            refine ⟨fun _ => by simp [startFate, hn, heb], fun h => by omega⟩
+          · simp [startPre, hn, heb]
+        · have heb : endsBefore ph r m = false := by rw [hum]; simpa using he
+          refine .cons ?_ (startWalk_ok ph r ms _ _ hrest ?_ hu')
+          · intro _
+            refine ⟨fun h => absurd h he, fun _ => Or.inl (by simp [startFate, hn, heb])⟩
+          · intro _; omega
+      | false =>
+        have hT := hpre rfl
+        have hs := lapStart_le_end ph m
+        refine .cons ?_ (startWalk_ok ph r ms _ _ hrest ?_ hu')
+        · intro _
+          refine ⟨fun h => by omega, fun _ => Or.inr ⟨by simp [startFate, hn], by omega⟩⟩
+        · intro _; omega
+    · have hn' : (m.num == ph.mesgNum) = false := by simpa using hn
+      simp only [lapsSeqP, hn', Bool.false_eq_true, ↓reduceIte] at hseq
+      refine .cons (fun h => absurd h hn) ?_
+      have hp : startPre ph r pre m = pre := by simp [startPre, hn']
+      rw [hp]
+      exact startWalk_ok ph r ms pre lo hseq hpre hu'
+
+/-- rewriting of the end position (and, when the two stretches overlap, removal of the start position) of the last
+lap/session that does not start after the record -/
+def rewriteEnd (ph : PH) (r : RecInfo) (overlap : Bool) (m : Message) : Message :=
+  setOrRemove ph.eLong r.long (setOrRemove ph.eLat r.lat (if overlap then rm ph.sLong (rm ph.sLat m) else m))
+
+def endFate (ph : PH) (r : RecInfo) (ov : Bool) (post : Bool) (m : Message) : Message :=
+  if m.num == ph.mesgNum then
+    if post then (if startsAfter ph r m then strip4 ph m else rewriteEnd ph r ov m) else m
+  else m
+
+def endPost (ph : PH) (r : RecInfo) (post : Bool) (m : Message) : Bool :=
+  if m.num == ph.mesgNum then post && startsAfter ph r m else post
+
+/-- along the REVERSED list -/
+def endWalk (ph : PH) (r : RecInfo) (ov : Bool) : Bool → List Message → List Message
+  | _, [] => []
+  | post, m :: ms => endFate ph r ov post m :: endWalk ph r ov (endPost ph r post m) ms
+
+theorem endWalk_false (ph : PH) (r : RecInfo) (ov : Bool) : ∀ ms, endWalk ph r ov false ms = ms
+  | [] => rfl
+  | m :: ms => by
+    have h1 : endFate ph r ov false m = m := by simp [endFate]
+    have h2 : endPost ph r false m = false := by simp [endPost]
+    simp only [endWalk, h1, h2, endWalk_false ph r ov ms]
+
+theorem updEndRev_eq_walk (ph : PH) (r : RecInfo) (ov : Bool) : ∀ ms, updEndRev ph r ov ms = endWalk ph r ov true ms
+  | [] => rfl
+  | m :: ms => by
+    simp only [updEndRev, endWalk, endFate, endPost]
+    by_cases hn : (m.num == ph.mesgNum) = true
+    · by_cases he : startsAfter ph r m = true
+      · simp [hn, he, updEndRev_eq_walk ph r ov ms]
+      · simp [hn, he, rewriteEnd, endWalk_false]
+    · simp [hn, updEndRev_eq_walk ph r ov ms]
+
+/-- reversed order: each lap/session ends no later than `hi`, the start of the one after it -/
+def lapsSeqRevP (ph : PH) : Nat → List Message → Prop
+  | _, [] => True
+  | hi, m :: ms => if m.num == ph.mesgNum then lapEndTime ph m ≤ hi ∧ lapsSeqRevP ph (lapStartTime ph m) ms else lapsSeqRevP ph hi ms
+
+/-- what the end stage does to a lap/session: starting after the last revealed record (timestamp `T`, which exists) →
+all four positions removed; otherwise either its end position is replaced by the record's, or it is left alone and
+ends at or before `T` -/
+def EndStageOK (ph : PH) (r : RecInfo) (ov : Bool) (m m' : Message) : Prop :=
+  (m.num == ph.mesgNum) = true →
+    (r.ts < lapStartTime ph m → m' = strip4 ph m) ∧
+    (lapStartTime ph m ≤ r.ts → m' = rewriteEnd ph r ov m ∨ (m' = m ∧ lapEndTime ph m ≤ r.ts))
+
+
+theorem endWalk_ok (ph : PH) (r : RecInfo) (ov : Bool) (hr : r.absent = false) : ∀ (ms : List Message) (post : Bool) (hi : Nat),
+    lapsSeqRevP ph hi ms → (post = false → hi ≤ r.ts) →
+    (∀ m ∈ ms, (m.num == ph.mesgNum) = true → lapStartTime ph m ≠ uint32Invalid) →
+    Rel2 (EndStageOK ph r ov) ms (endWalk ph r ov post ms)
+  | [], _, _, _, _, _ => .nil
+  | m :: ms, post, hi, hseq, hpost, hv => by
+    simp only [endWalk]
+    have hv' : ∀ x ∈ ms, (x.num == ph.mesgNum) = true → lapStartTime ph x ≠ uint32Invalid :=
+      fun x hx => hv x (List.mem_cons_of_mem _ hx)
+    by_cases hn : (m.num == ph.mesgNum) = true
+    · simp only [lapsSeqRevP, hn, ↓reduceIte] at hseq
+      obtain ⟨hhi, hrest⟩ := hseq
+      have hvm := hv m (List.mem_cons_self ..) hn
+      have hsa : startsAfter ph r m = decide (r.ts < lapStartTime ph m) := by
+        simp only [startsAfter, hr, Bool.false_or, lapStartTime] at hvm ⊢
+        have : (u32 (fval m ph.startTime) == uint32Invalid) = false := by simpa using hvm
+        simp only [this, Bool.false_or, gt_iff_lt]
+        rfl
+      cases post with
+      | true =>
+        by_cases he : r.ts < lapStartTime ph m
+        · have hsb : startsAfter ph r m = true := by rw [hsa]; simpa using he
+          refine .cons ?_ (endWalk_ok ph r ov hr ms _ _ hrest ?_ hv')
+          · intro _
+            refine ⟨fun _ => by simp [endFate, hn, hsb], fun h => by omega⟩
+          · simp [endPost, hn, hsb]
+        · have hsb : startsAfter ph r m = false := by rw [hsa]; simpa using he
+          refine .cons ?_ (endWalk_ok ph r ov hr ms _ _ hrest ?_ hv')
+          · intro _
+            refine ⟨fun h => absurd h he, fun _ => Or.inl (by simp [endFate, hn, hsb])⟩
+          · intro _; omega
+      | false =>
+        have hT := hpost rfl
+        have hs := lapStart_le_end ph m
+        refine .cons ?_ (endWalk_ok ph r ov hr ms _ _ hrest ?_ hv')
+        · intro _
+          refine ⟨fun h => by omega, fun _ => Or.inr ⟨by simp [endFate, hn], by omega⟩⟩
+        · intro _; omega
+    · have hn' : (m.num == ph.mesgNum) = false := by simpa using hn
+      simp only [lapsSeqRevP, hn', Bool.false_eq_true, ↓reduceIte] at hseq
+      refine .cons (fun h => absurd h hn) ?_
+      have hp : endPost ph r post m = post := by simp [endPost, hn']
+      rw [hp]
+      exact endWalk_ok ph r ov hr ms post hi hseq hpost hv'
+
+/-- no record left revealed (`recordIndex = -1`, fixed by /repo commit bd79ab7): every lap/session loses all four positions -/
+theorem endWalk_absent (ph : PH) (r : RecInfo) (ov : Bool) (hr : r.absent = true) : ∀ ms : List Message,
+    Rel2 (fun m m' => (m.num == ph.mesgNum) = true → m' = strip4 ph m) ms (endWalk ph r ov true ms)
+  | [] => .nil
+  | m :: ms => by
+    simp only [endWalk]
+    by_cases hn : (m.num == ph.mesgNum) = true
+    · have hsb : startsAfter ph r m = true := by simp [startsAfter, hr]
+      have hp : endPost ph r true m = true := by simp [endPost, hn, hsb]
+      rw [hp]
+      exact .cons (fun _ => by simp [endFate, hn, hsb]) (endWalk_absent ph r ov hr ms)
+    · have hn' : (m.num == ph.mesgNum) = false := by simpa using hn
+      have hp : endPost ph r true m = true := by simp [endPost, hn']
+      rw [hp]
+      exact .cons (fun h => absurd h hn) (endWalk_absent ph r ov hr ms)
+
+end Fit.Activity
